@@ -99,9 +99,30 @@ Prec(t) == CASE t.k = "leaf" -> 18
 (***************************************************************************)
 Sh(i, d) == IF i = 0 THEN 0 ELSE IF i > 0 THEN i + d ELSE i - d
 Shift(E, d) == {<<Sh(e[1], d), Sh(e[2], d), Sh(e[3], d)>> : e \in E}
-Move(l, d) == [toks |-> l.toks, root |-> Sh(l.root, d), edges |-> Shift(l.edges, d)]
-Par(l) == [toks |-> <<"(">> \o l.toks \o <<")">>, root |-> Sh(l.root, 1), edges |-> Shift(l.edges, 1)]
+ShiftP(S, d) == {Sh(i, d) : i \in S}
+\* a layout moved d tokens to the right (its token sequence is not changed)
+Move(l, d) == [toks |-> l.toks, root |-> Sh(l.root, d), edges |-> Shift(l.edges, d), opt |-> ShiftP(l.opt, d)]
+Par(l) == [toks |-> <<"(">> \o l.toks \o <<")">>, root |-> Sh(l.root, 1), edges |-> Shift(l.edges, 1), opt |-> ShiftP(l.opt, 1)]
+\* opt: m = the node at position m is always optional, -m = a prefix minus at m (optional only directly after a + or - token)
+NumLits == {"0", "1", "2"}
 
+(***************************************************************************)
+(* Three token-level normalisations of cppcheck's tokenizer happen before  *)
+(* the AST exists:                                                         *)
+(*  - a unary "+" is deleted, and a unary "-" in front of a numeric        *)
+(*    literal is merged into the literal: "- 1" becomes the token "-1"     *)
+(*    (Tokenizer::concatenateNegativeNumberAndAnyPositive).  Whether it    *)
+(*    happens depends on the token before the operator (not after a cast,  *)
+(*    not before "name (" ...), which is no part of the AST convention;    *)
+(*  - "+ -" becomes "-" and "- -" becomes "+": a prefix minus that         *)
+(*    directly follows a "+" or "-" token is merged into that token        *)
+(*    (Tokenizer::simplifyDoublePlusAndDoubleMinus).                       *)
+(* They keep the value of the expression.  The spec leaves them open: such *)
+(* a unary node is OPTIONAL (field opt of the layout: m = always optional, *)
+(* -m = a prefix minus at m, optional when the token before it is + or -); *)
+(* if cppcheck reports no node at that position, the operand stands in     *)
+(* its place (see Expected).                                               *)
+(***************************************************************************)
 RECURSIVE Lay(_, _), ArgsLay(_, _)
 \* the layout of child t in a position that demands level >= min
 Child(t, min, cpp) == IF Prec(t) < min THEN Par(Lay(t, cpp)) ELSE Lay(t, cpp)
@@ -112,72 +133,85 @@ UChild(t, cpp) == IF Prec(t) < 16 \/ t.k = "cast" THEN Par(Lay(t, cpp)) ELSE Lay
 ArgsLay(args, cpp) ==
   IF Len(args) = 1 THEN Child(args[1], 2, cpp)
   ELSE LET front == ArgsLay(SubSeq(args, 1, Len(args) - 1), cpp)
-           last  == Child(args[Len(args)], 2, cpp)
+           last  == Move(Child(args[Len(args)], 2, cpp), Len(front.toks) + 1)
            c     == Len(front.toks) + 1
        IN  [toks |-> front.toks \o <<",">> \o last.toks, root |-> c,
-            edges |-> front.edges \cup Shift(last.edges, c) \cup {<<c, front.root, Sh(last.root, c)>>}]
+            edges |-> front.edges \cup last.edges \cup {<<c, front.root, last.root>>}, opt |-> front.opt \cup last.opt]
 
 Lay(t, cpp) ==
-  CASE t.k = "leaf" -> [toks |-> <<t.s>>, root |-> 1, edges |-> {}]
+  CASE t.k = "leaf" -> [toks |-> <<t.s>>, root |-> 1, edges |-> {}, opt |-> {}]
     [] t.k = "bin" ->
          LET lv == BinPrec(t.op)
              \* left operand: assignment wants a unary-expression, a left-associative level wants its own level
              L == IF t.op \in AsgOps THEN Child(t.x, 16, cpp) ELSE Child(t.x, lv, cpp)
-             \* right operand: assignment (right-associative) wants an assignment-expression, the others the next level
-             R == IF t.op \in AsgOps THEN Child(t.y, 2, cpp) ELSE Child(t.y, lv + 1, cpp)
              o == Len(L.toks) + 1
+             \* right operand: assignment (right-associative) wants an assignment-expression, the others the next level
+             R == Move(IF t.op \in AsgOps THEN Child(t.y, 2, cpp) ELSE Child(t.y, lv + 1, cpp), o)
          IN  [toks |-> L.toks \o <<t.op>> \o R.toks, root |-> o,
-              edges |-> L.edges \cup Shift(R.edges, o) \cup {<<o, L.root, Sh(R.root, o)>>}]
+              edges |-> L.edges \cup R.edges \cup {<<o, L.root, R.root>>}, opt |-> L.opt \cup R.opt]
     [] t.k = "pre" ->
-         LET X == IF t.op \in {"++", "--"} THEN UChild(t.x, cpp) ELSE Child(t.x, 16, cpp)
-         IN  [toks |-> <<t.op>> \o X.toks, root |-> 1, edges |-> Shift(X.edges, 1) \cup {<<1, Sh(X.root, 1), 0>>}]
+         LET X == Move(IF t.op \in {"++", "--"} THEN UChild(t.x, cpp) ELSE Child(t.x, 16, cpp), 1)
+         IN  [toks |-> <<t.op>> \o X.toks, root |-> 1, edges |-> X.edges \cup {<<1, X.root, 0>>},
+              opt |-> X.opt \cup (IF t.op = "+" \/ (t.op = "-" /\ t.x.k = "leaf" /\ t.x.s \in NumLits) THEN {1}
+                                  ELSE IF t.op = "-" THEN {-1} ELSE {})]
     [] t.k = "post" ->
          LET X == Child(t.x, 17, cpp)
              o == Len(X.toks) + 1
-         IN  [toks |-> X.toks \o <<t.op>>, root |-> o, edges |-> X.edges \cup {<<o, X.root, 0>>}]
+         IN  [toks |-> X.toks \o <<t.op>>, root |-> o, edges |-> X.edges \cup {<<o, X.root, 0>>}, opt |-> X.opt]
     [] t.k = "cond" ->
-         LET C == Child(t.c, 4, cpp)                      \* logical-OR-expression
-             X == Child(t.x, 1, cpp)                      \* expression: as if parenthesised
-             Y == Child(t.y, IF cpp THEN 2 ELSE 3, cpp)   \* C: conditional-expression, C++: assignment-expression
+         LET C == Child(t.c, 4, cpp)                                      \* logical-OR-expression
              q == Len(C.toks) + 1
+             X == Move(Child(t.x, 1, cpp), q)                             \* expression: as if parenthesised
              c == q + Len(X.toks) + 1
+             Y == Move(Child(t.y, IF cpp THEN 2 ELSE 3, cpp), c)          \* C: conditional-expression, C++: assignment-expression
          IN  [toks |-> C.toks \o <<"?">> \o X.toks \o <<":">> \o Y.toks, root |-> q,
-              edges |-> C.edges \cup Shift(X.edges, q) \cup Shift(Y.edges, c)
-                        \cup {<<q, C.root, c>>, <<c, Sh(X.root, q), Sh(Y.root, c)>>}]
+              edges |-> C.edges \cup X.edges \cup Y.edges \cup {<<q, C.root, c>>, <<c, X.root, Y.root>>},
+              opt |-> C.opt \cup X.opt \cup Y.opt]
     [] t.k = "call" ->
          LET F == Child(t.f, 17, cpp)
              o == Len(F.toks) + 1
-         IN  IF t.args = <<>> THEN [toks |-> F.toks \o <<"(", ")">>, root |-> o, edges |-> F.edges \cup {<<o, F.root, 0>>}]
-             ELSE LET A == ArgsLay(t.args, cpp)
+         IN  IF t.args = <<>> THEN [toks |-> F.toks \o <<"(", ")">>, root |-> o, edges |-> F.edges \cup {<<o, F.root, 0>>}, opt |-> F.opt]
+             ELSE LET A == Move(ArgsLay(t.args, cpp), o)
                   IN  [toks |-> F.toks \o <<"(">> \o A.toks \o <<")">>, root |-> o,
-                       edges |-> F.edges \cup Shift(A.edges, o) \cup {<<o, F.root, Sh(A.root, o)>>}]
+                       edges |-> F.edges \cup A.edges \cup {<<o, F.root, A.root>>}, opt |-> F.opt \cup A.opt]
     [] t.k = "sub" ->
          LET X == Child(t.x, 17, cpp)
-             I == Child(t.i, 1, cpp)
              o == Len(X.toks) + 1
+             I == Move(Child(t.i, 1, cpp), o)
          IN  [toks |-> X.toks \o <<"[">> \o I.toks \o <<"]">>, root |-> o,
-              edges |-> X.edges \cup Shift(I.edges, o) \cup {<<o, X.root, Sh(I.root, o)>>}]
+              edges |-> X.edges \cup I.edges \cup {<<o, X.root, I.root>>}, opt |-> X.opt \cup I.opt]
     [] t.k = "cast" ->
-         LET X == Child(t.x, 16, cpp)                     \* cast-expression
-         IN  [toks |-> <<"(", t.ty, ")">> \o X.toks, root |-> 1, edges |-> Shift(X.edges, 3) \cup {<<1, Sh(X.root, 3), 0>>}]
-    [] t.k = "szT" -> [toks |-> <<"sizeof", "(", t.ty, ")">>, root |-> 2, edges |-> {<<2, 1, 3>>}]
+         LET X == Move(Child(t.x, 16, cpp), 3)                            \* cast-expression
+         IN  [toks |-> <<"(", t.ty, ")">> \o X.toks, root |-> 1, edges |-> X.edges \cup {<<1, X.root, 0>>}, opt |-> X.opt]
+    [] t.k = "szT" -> [toks |-> <<"sizeof", "(", t.ty, ")">>, root |-> 2, edges |-> {<<2, 1, 3>>}, opt |-> {}]
     [] t.k = "szE" ->
          \* sizeof unary-expression.  If the operand had to be parenthesised as a whole, that "(" is the node;
          \* otherwise the node is the parenthesis the tokenizer inserts after sizeof (named -1 here).
          IF Prec(t.x) < 16 \/ t.x.k = "cast"
-         THEN LET X == Lay(t.x, cpp)
-              IN  [toks |-> <<"sizeof", "(">> \o X.toks \o <<")">>, root |-> 2, edges |-> Shift(X.edges, 2) \cup {<<2, 1, Sh(X.root, 2)>>}]
-         ELSE LET X == Lay(t.x, cpp)
-              IN  [toks |-> <<"sizeof">> \o X.toks, root |-> -1, edges |-> Shift(X.edges, 1) \cup {<<-1, 1, Sh(X.root, 1)>>}]
+         THEN LET X == Move(Lay(t.x, cpp), 2)
+              IN  [toks |-> <<"sizeof", "(">> \o X.toks \o <<")">>, root |-> 2, edges |-> X.edges \cup {<<2, 1, X.root>>}, opt |-> X.opt]
+         ELSE LET X == Move(Lay(t.x, cpp), 1)
+              IN  [toks |-> <<"sizeof">> \o X.toks, root |-> -1, edges |-> X.edges \cup {<<-1, 1, X.root>>}, opt |-> X.opt]
     [] t.k = "if" ->
-         LET X == Lay(t.x, cpp)
-         IN  [toks |-> <<"if", "(">> \o X.toks \o <<")">>, root |-> 2, edges |-> Shift(X.edges, 2) \cup {<<2, 1, Sh(X.root, 2)>>}]
+         LET X == Move(Lay(t.x, cpp), 2)
+         IN  [toks |-> <<"if", "(">> \o X.toks \o <<")">>, root |-> 2, edges |-> X.edges \cup {<<2, 1, X.root>>}, opt |-> X.opt]
     [] t.k = "ret" ->
-         LET X == Lay(t.x, cpp)
-         IN  [toks |-> <<"return">> \o X.toks, root |-> 1, edges |-> Shift(X.edges, 1) \cup {<<1, Sh(X.root, 1), 0>>}]
+         LET X == Move(Lay(t.x, cpp), 1)
+         IN  [toks |-> <<"return">> \o X.toks, root |-> 1, edges |-> X.edges \cup {<<1, X.root, 0>>}, opt |-> X.opt]
 
 PrintExpr(t, cpp) == Lay(t, cpp).toks
 Ast(t, cpp)   == Lay(t, cpp).edges
+
+\* The edge set expected for t when cppcheck reported nodes at the positions `nodes`: optional unary nodes (see
+\* above) that are not among them are elided - their edge disappears and whoever referred to them refers to their operand.
+Expected(t, cpp, nodes) ==
+  LET L == Lay(t, cpp)
+      optional == {m \in L.opt : m > 0} \cup {-m : m \in {k \in L.opt : k < 0 /\ -k > 1 /\ L.toks[(-k) - 1] \in {"+", "-"}}}
+      gone == {m \in optional : m \notin nodes}
+      Operand(m) == (CHOOSE e \in L.edges : e[1] = m)[2]
+      RECURSIVE Red(_)
+      Red(i) == IF i \in gone THEN Red(Operand(i)) ELSE i
+  IN  {<<e[1], Red(e[2]), Red(e[3])>> : e \in {d \in L.edges : d[1] \notin gone}}
 
 (***************************************************************************)
 (* Reference parser: recursive descent along the ISO grammar.              *)
@@ -334,6 +368,40 @@ StmtsOf(e, sort, ctxs) ==
 
 Stmts(pf, n, ctxs) == UNION {StmtsOf(e, "I", ctxs) : e \in A(pf, n)} \cup UNION {StmtsOf(e, "P", ctxs) : e \in T(pf, "P", n)}
 
+\* the sort of a generated tree (needed to place a subtree into a statement of its own)
+RECURSIVE SortOf(_)
+SortOf(t) == CASE t.k = "leaf" -> (IF t.s \in {"p", "y"} THEN "P" ELSE "I")
+               [] t.k = "pre" -> (IF t.op = "&" THEN "P" ELSE IF t.op \in {"++", "--"} THEN SortOf(t.x) ELSE "I")
+               [] t.k = "post" -> SortOf(t.x)
+               [] t.k = "bin" -> (IF t.op \in {"+", "-"} THEN (IF SortOf(t.x) = "P" /\ SortOf(t.y) = "I" THEN "P" ELSE "I")
+                                 ELSE IF t.op \in AsgOps THEN SortOf(t.x) ELSE IF t.op = "," THEN SortOf(t.y) ELSE "I")
+               [] t.k = "cond" -> SortOf(t.x)
+               [] OTHER -> "I"
+
+\* the sub-expressions of a tree that can stand alone as  x = e ;  /  y = e ;
+RECURSIVE Subs(_)
+Subs(t) == CASE t.k = "leaf" -> (IF t.s \in {"s", "q", "f", "m"} THEN {} ELSE {t})
+             [] t.k = "bin" -> (IF t.op \in {".", "->"} THEN {t} ELSE {t} \cup Subs(t.x) \cup Subs(t.y))
+             [] t.k \in {"pre", "post", "cast", "szE"} -> {t} \cup Subs(t.x)
+             [] t.k \in {"if", "ret"} -> Subs(t.x)
+             [] t.k = "cond" -> {t} \cup Subs(t.c) \cup Subs(t.x) \cup Subs(t.y)
+             [] t.k = "sub" -> {t} \cup Subs(t.x) \cup Subs(t.i)
+             [] t.k = "call" -> {t} \cup UNION {Subs(t.args[i]) : i \in DOMAIN t.args}
+             [] OTHER -> {t}
+Alone(e) == Bin("=", Leaf(IF SortOf(e) = "P" THEN "y" ELSE "x"), e)
+
+\* chains of two unary-level operators (prefix, postfix, cast, sizeof, subscript, call, member) over all operators of the table
+IsUnaryLevel(t) == t.k \in {"pre", "post", "cast", "szE", "sub", "call"} \/ (t.k = "bin" /\ t.op \in {".", "->"})
+UnaryChains(pf) ==
+  LET P  == Profile(pf)
+      XL == {t \in T(pf, "L", 1) : IsUnaryLevel(t)}          \* * p   p [ i ]   s . m   q -> m
+      XI == XL \cup {t \in T(pf, "I", 1) : IsUnaryLevel(t)}   \* - a  ! a  ++ a  a ++  ( int ) a  sizeof a  f ( ) ...
+      XP == {t \in T(pf, "P", 1) : IsUnaryLevel(t)}          \* & a   ++ p   p ++
+  IN  {Pre(op, x) : op \in P.un, x \in XI} \cup {Pre(op, x) : op \in P.inc, x \in XL} \cup {Post(op, x) : op \in P.inc, x \in XL}
+      \cup {Cast("int", x) : x \in XI} \cup {SzE(x) : x \in XI \cup XP}
+      \cup {Pre("*", x) : x \in XP} \cup {Pre("&", x) : x \in XL} \cup {Sub(x, Leaf("1")) : x \in XP}
+      \cup {Call(Leaf("f"), <<x>>) : x \in XI}
+
 \* the number of operator nodes of a tree (for the evidence)
 RECURSIVE Size(_)
 Size(t) == CASE t.k = "leaf" -> 0 [] t.k = "szT" -> 1
@@ -376,15 +444,18 @@ BigSample(pf, perFamily) ==
 (*   laws   Parse(PrintExpr(t)) = t and injectivity of Print on the cases      *)
 (*   gen    write the cases: [id, n, toks] (+ tree for the judge)          *)
 (*   judge  read cases + observations, compare with Ast, write mismatches  *)
+(*   subs   write the sub-expressions of disputed cases as cases            *)
 (*   clang  compare the tree shape clang reports with the tree of the case *)
 (***************************************************************************)
 Mode == IF "MODE" \in DOMAIN IOEnv THEN IOEnv.MODE ELSE "none"
 IsCpp == IOEnv.LANG = "cpp"
-Ctxs(n) == IF n <= 1 THEN {"asg", "if", "ret", "arg"} ELSE IF n = 2 THEN {"asg", "if"} ELSE {"asg"}
-
-\* IOEnv.STRATA = e.g. "full:0,full:1,rep:2"  is passed as a JSON file instead (IOEnv.PLAN): sequence of [pf, n] and [pf, big]
+\* IOEnv.PLAN: ndjson, the strata of this run:
+\*   [kind |-> "exact", pf, n, ctx]   all statements (contexts ctx) over all well-typed trees of profile pf with exactly n operators
+\*   [kind |-> "big", pf, n]          a random sample (TLC's -seed) of n trees per root family, 3 to 6 operators, as  x = e ;
 Plan == ndJsonDeserialize(IOEnv.PLAN)
-CasesOf(st) == IF st.kind = "exact" THEN Stmts(st.pf, st.n, Ctxs(st.n))
+\*   [kind |-> "unary2", pf]         all chains of two unary-level operators of profile pf, as  x = e ; / y = e ;
+CasesOf(st) == IF st.kind = "exact" THEN Stmts(st.pf, st.n, {st.ctx[i] : i \in DOMAIN st.ctx})
+               ELSE IF st.kind = "unary2" THEN {Alone(e) : e \in UnaryChains(st.pf)}
                ELSE {Bin("=", Leaf("x"), e) : e \in BigSample(st.pf, st.n)}
 AllCases == UNION {CasesOf(Plan[i]) : i \in DOMAIN Plan}
 CaseSeq == SetToSeq(AllCases)
@@ -402,14 +473,24 @@ ASSUME Mode = "gen" =>
 Cases == ndJsonDeserialize(IOEnv.CASES)
 Obs   == ndJsonDeserialize(IOEnv.OBS)
 EdgeSet(o) == {<<o.edges[j][1], o.edges[j][2], o.edges[j][3]>> : j \in DOMAIN o.edges}
-Mismatch(i) == Obs[i].status = "ok" /\ EdgeSet(Obs[i]) # Ast(Cases[i].t, IsCpp)
+ExpectedFor(i) == Expected(Cases[i].t, IsCpp, {e[1] : e \in EdgeSet(Obs[i])})
+Mismatch(i) == Obs[i].status = "ok" /\ EdgeSet(Obs[i]) # ExpectedFor(i)
 BadIdx == SelectSeq([i \in DOMAIN Cases |-> i], Mismatch)
 ASSUME Mode = "judge" =>
          /\ Len(Cases) = Len(Obs) /\ \A i \in DOMAIN Cases : Cases[i].id = Obs[i].id
          /\ ndJsonSerialize(IOEnv.OUT, [k \in DOMAIN BadIdx |->
                [id |-> Cases[BadIdx[k]].id, toks |-> Cases[BadIdx[k]].toks, t |-> Cases[BadIdx[k]].t,
-                expected |-> SetToSeq(Ast(Cases[BadIdx[k]].t, IsCpp)), observed |-> SetToSeq(EdgeSet(Obs[BadIdx[k]]))]])
+                expected |-> SetToSeq(ExpectedFor(BadIdx[k])), observed |-> SetToSeq(EdgeSet(Obs[BadIdx[k]]))]])
          /\ PrintT(<<"JUDGED", Len(Cases), "OK", Cardinality({i \in DOMAIN Obs : Obs[i].status = "ok"}), "BAD", Len(BadIdx)>>)
+
+\* subs: for every disputed case of IOEnv.CASES the statements  x = e ;  over all sub-expressions e (to find the smallest failing one)
+SubCases == LET S(i) == {Alone(e) : e \in Subs(Cases[i].t)} \cup {Cases[i].t}
+                all == UNION {{<<i, u>> : u \in S(i)} : i \in DOMAIN Cases}
+            IN  SetToSeq(all)
+ASSUME Mode = "subs" =>
+         /\ ndJsonSerialize(IOEnv.OUT, [k \in DOMAIN SubCases |-> [id |-> k, parent |-> Cases[SubCases[k][1]].id, n |-> Size(SubCases[k][2]),
+                                                                   toks |-> PrintExpr(SubCases[k][2], IsCpp), t |-> SubCases[k][2]]])
+         /\ PrintT(<<"SUBS", Len(SubCases)>>)
 
 \* clang: IOEnv.CASES = the disputed cases [id, t, ...], IOEnv.OBS = [id, status, t] with the tree read off clang's AST dump
 ClangAgrees(i) == Obs[i].status = "ok" /\ Obs[i].t = Cases[i].t
